@@ -1,8 +1,11 @@
 //! Streams (4) boundary at BUF and (5) long inputs (>= 3*BUF).
+//!
+//! Every script here has AT MOST 4 ops (these lines are hundreds of KB; the generic shrinker must
+//! have almost nothing to do). Token inputs are periodic rows of one tuple shape so that a single
+//! `v:<n>:<row atoms>` reads the bulk; line inputs are read by `lines`.
 use crate::common::*;
 use crate::gen::*;
-use crate::{Atom, Item, Op, Oracle, Sched};
-use std::collections::HashMap;
+use crate::{is_signed, Atom, Item, Op, Oracle, Sched, INT_ATOMS};
 
 #[derive(Clone, Copy, PartialEq, Eq, Debug)]
 enum Mode {
@@ -12,102 +15,250 @@ enum Mode {
     Mixed,
 }
 
-struct Big {
-    mode: Mode,
-    out: Vec<u8>,
-    hints: HashMap<usize, Atom>,
-}
-
 fn digits(rng: &mut SplitMix64, len: usize) -> Vec<u8> {
     (0..len).map(|i| if i == 0 { b'1' + rng.below(9) as u8 } else { b'0' + rng.below(10) as u8 }).collect()
 }
 
-impl Big {
-    fn tok(&mut self, t: &[u8], hint: Option<Atom>) {
-        if let Some(h) = hint {
-            self.hints.insert(self.out.len(), h);
-        }
-        self.out.extend_from_slice(t);
+fn pad_ws(rng: &mut SplitMix64, out: &mut Vec<u8>, k: usize) {
+    for _ in 0..k {
+        out.push(*rng.pick(&[b' ', b' ', b' ', b' ', b'\t', b'\n']));
     }
+}
 
-    /// separator after a token / terminator after a line
-    fn sep(&mut self, rng: &mut SplitMix64) {
-        if self.mode == Mode::Lines {
+// ---------------------------------------------------------------------------------------------
+// periodic rows of tokens
+// ---------------------------------------------------------------------------------------------
+
+fn big_atom(rng: &mut SplitMix64) -> Atom {
+    match rng.below(20) {
+        0..=2 => Atom::U128,
+        3 => Atom::I128,
+        4..=6 => Atom::Str,
+        7 => Atom::Chr,
+        _ => *rng.pick(&INT_ATOMS),
+    }
+}
+
+/// number of digits after `-` that is always in range for a signed type (6 for words)
+fn neg_digits(a: Atom) -> u64 {
+    match a {
+        Atom::I8 => 2,
+        Atom::I16 => 4,
+        Atom::I32 => 9,
+        Atom::I64 | Atom::Isize => 18,
+        Atom::I128 => 38,
+        _ => 6,
+    }
+}
+
+struct RowsInput {
+    data: Vec<u8>,
+    shape: Vec<Atom>,
+    first: Option<Atom>,
+}
+
+fn rows_input(g: &mut Gen, rng: &mut SplitMix64, shape: Vec<Atom>, first: Option<Atom>, total: usize, long_word: bool) -> RowsInput {
+    let b = g.buf();
+    let k = shape.len();
+    let mut out: Vec<u8> = Vec::with_capacity(total + 1024);
+    let mut row_ends: Vec<(usize, usize)> = Vec::new(); // (end of the last token of a row, end of its separator)
+    let mut ins_pos = 0usize; // a place (right after a token) where whitespace may be inserted without moving the specials
+    let mut have_ins = false;
+    if rng.chance(1, 4) {
+        rand_sep(rng, &mut out);
+    }
+    if let Some(a0) = first {
+        let t = token_for(rng, a0);
+        out.extend_from_slice(&t);
+        ins_pos = out.len();
+        have_ins = true;
+        rand_sep(rng, &mut out);
+    }
+    let lw_start = rng.below(b as u64 / 2 + 1) as usize;
+    let mut lw_done = !long_word;
+    let mut next_x = b;
+    let mut idx = 0usize;
+    while out.len() <= total {
+        let a = shape[idx];
+        let p = out.len();
+        while next_x < p + 7 {
+            next_x += b;
+        }
+        if next_x < total && next_x - p <= 90 {
+            // something must straddle stream offset next_x (bytes next_x-1 | next_x)
+            let x = next_x;
+            let allowed: &[u64] = match a {
+                Atom::Chr => &[2],
+                Atom::Str => &[0, 1, 2],
+                _ if is_signed(a) => &[0, 1, 2],
+                _ => &[0, 2],
+            };
+            let mut kind = rng.below(3);
+            if !allowed.contains(&kind) {
+                kind = *rng.pick(allowed);
+            }
+            let what = match kind {
+                0 => {
+                    let t = loop {
+                        let t = token_for(rng, a);
+                        if t.len() >= 2 {
+                            break t;
+                        }
+                    };
+                    let d = 1 + rng.below((t.len() as u64 - 1).min(6)) as usize;
+                    pad_ws(rng, &mut out, x - d - p);
+                    out.extend_from_slice(&t);
+                    "big_token_straddles_multiple_of_buf"
+                }
+                1 => {
+                    let l = 1 + rng.below(neg_digits(a)) as usize;
+                    pad_ws(rng, &mut out, x - 1 - p);
+                    out.push(b'-');
+                    out.extend(digits(rng, l));
+                    "big_minus_digits_straddle_multiple_of_buf"
+                }
+                _ => {
+                    pad_ws(rng, &mut out, x - 1 - p);
+                    out.extend_from_slice(b"\r\n");
+                    let t = token_for(rng, a);
+                    out.extend_from_slice(&t);
+                    "big_cr_lf_straddle_multiple_of_buf"
+                }
+            };
+            g.emit_count_pair(what);
+            ins_pos = out.len();
+            have_ins = true;
+            next_x += b;
+        } else if !lw_done && a == Atom::Str && p >= lw_start {
+            let l = b + 1 + rng.below(b as u64 / 2 + 1) as usize;
+            out.extend(word(rng, l));
+            lw_done = true;
+            ins_pos = out.len();
+            have_ins = true;
+            g.emit_count_pair("big_word_longer_than_buf");
+        } else {
+            let t = token_for(rng, a);
+            out.extend_from_slice(&t);
+            if !have_ins {
+                ins_pos = out.len();
+                have_ins = true;
+            }
+        }
+        let tok_end = out.len();
+        if idx + 1 == k && rng.chance(2, 3) {
             if rng.chance(1, 2) {
-                self.out.push(b'\n');
+                out.push(b'\n');
             } else {
-                self.out.extend_from_slice(b"\r\n");
+                out.extend_from_slice(b"\r\n");
             }
         } else {
-            rand_sep(rng, &mut self.out);
+            rand_sep(rng, &mut out);
+        }
+        idx += 1;
+        if idx == k {
+            idx = 0;
+            row_ends.push((tok_end, out.len()));
+        }
+    }
+    // exact length: either cut anywhere, or end after a complete row and make up the difference with
+    // whitespace inserted behind the last special
+    let mut done = false;
+    if rng.chance(1, 2) {
+        let strip = rng.chance(1, 2);
+        if let Some(&(te, se)) = row_ends.iter().rev().find(|(te, se)| (if strip { *te } else { *se }) <= total && *te >= ins_pos) {
+            let cut = if strip { te } else { se };
+            out.truncate(cut);
+            let mut padding = Vec::new();
+            pad_ws(rng, &mut padding, total - cut);
+            let at = ins_pos.min(out.len());
+            out.splice(at..at, padding);
+            g.emit_count_pair(if strip { "big_ends_after_full_row_no_separator" } else { "big_ends_after_full_row_with_separator" });
+            done = true;
+        }
+    }
+    if !done {
+        out.truncate(total);
+        g.emit_count_pair("big_ends_truncated");
+    }
+    debug_assert_eq!(out.len(), total);
+    RowsInput { data: out, shape, first }
+}
+
+/// `[r:<first> ;] v:<n>:<row atoms> ; tail` with at most 4 ops, valid per the oracle
+fn rows_script(rng: &mut SplitMix64, inp: &RowsInput) -> Vec<Op> {
+    let mut o = Oracle::new(&inp.data);
+    let mut scratch = String::new();
+    let mut ops = Vec::new();
+    let mut ok = true;
+    if let Some(a0) = inp.first {
+        let save = o.p;
+        if o.atom(a0, &mut scratch) {
+            ops.push(Op::R(a0));
+        } else {
+            o.p = save;
+            ok = false;
+        }
+    }
+    let mut n = 0usize;
+    while ok {
+        let save = o.p;
+        scratch.clear();
+        if inp.shape.iter().all(|a| o.atom(*a, &mut scratch)) {
+            n += 1;
+        } else {
+            o.p = save;
+            break;
+        }
+    }
+    ops.push(Op::V(n, inp.shape.clone()));
+    match rng.below(5) {
+        0 => ops.push(Op::Lines),
+        1 => ops.push(Op::Eof),
+        2 => {
+            ops.push(Op::Lines);
+            ops.push(Op::Eof);
+        }
+        3 => {
+            ops.push(Op::Eof);
+            ops.push(Op::Line);
+        }
+        _ => {
+            let mut m = 0usize;
+            while o.next_token().is_some() {
+                m += 1;
+            }
+            ops.push(Op::V(m, vec![Atom::Str]));
+            if ops.len() < 4 {
+                ops.push(Op::Eof);
+            }
+        }
+    }
+    ops.truncate(4);
+    ops
+}
+
+// ---------------------------------------------------------------------------------------------
+// line-oriented big inputs
+// ---------------------------------------------------------------------------------------------
+
+struct BigLines {
+    out: Vec<u8>,
+}
+
+impl BigLines {
+    fn term(&mut self, rng: &mut SplitMix64) {
+        if rng.chance(1, 2) {
+            self.out.push(b'\n');
+        } else {
+            self.out.extend_from_slice(b"\r\n");
         }
     }
 
-    /// one token + separator (one line + terminator), at most 80 bytes
+    /// one line + terminator, at most 80 bytes
     fn unit(&mut self, rng: &mut SplitMix64) {
-        match self.mode {
-            Mode::Ints => {
-                let l = 1 + rng.below(18) as usize;
-                let mut t = digits(rng, l);
-                if rng.chance(1, 4) {
-                    t.insert(0, b'-');
-                }
-                self.tok(&t, Some(Atom::I64));
-            }
-            Mode::Words => {
-                let l = 1 + rng.below(40) as usize;
-                let w = word(rng, l);
-                self.tok(&w, Some(Atom::Str));
-            }
-            Mode::Lines => {
-                let l = rng.below(61) as usize;
-                let w = printable(rng, l);
-                self.tok(&w, None);
-            }
-            Mode::Mixed => {
-                let a = rand_atom(rng);
-                let t = token_for(rng, a);
-                self.tok(&t, Some(a));
-            }
-        }
-        self.sep(rng);
-    }
-
-    /// exactly `len` bytes ending in a one-byte separator
-    fn exact(&mut self, rng: &mut SplitMix64, mut len: usize) {
-        match self.mode {
-            Mode::Ints => {
-                while len > 19 {
-                    let t = digits(rng, 10);
-                    self.tok(&t, Some(Atom::I64));
-                    self.out.push(b' ');
-                    len -= 11;
-                }
-                if len >= 2 {
-                    let t = digits(rng, len - 1);
-                    self.tok(&t, Some(Atom::I64));
-                }
-                if len >= 1 {
-                    self.out.push(b' ');
-                }
-            }
-            Mode::Words | Mode::Mixed => {
-                if len >= 2 {
-                    let w = word(rng, len - 1);
-                    self.tok(&w, Some(Atom::Str));
-                }
-                if len >= 1 {
-                    self.out.push(b' ');
-                }
-            }
-            Mode::Lines => {
-                if len >= 1 {
-                    let w = printable(rng, len - 1);
-                    self.tok(&w, None);
-                    self.out.push(b'\n');
-                }
-            }
-        }
+        let l = rng.below(61) as usize;
+        self.out.extend(printable(rng, l));
+        self.term(rng);
     }
 
     fn fill_to(&mut self, rng: &mut SplitMix64, target: usize) {
@@ -115,7 +266,10 @@ impl Big {
             self.unit(rng);
         }
         let r = target.saturating_sub(self.out.len());
-        self.exact(rng, r);
+        if r >= 1 {
+            self.out.extend(printable(rng, r - 1));
+            self.out.push(b'\n');
+        }
     }
 
     /// put something that straddles stream offset x (bytes x-1 | x)
@@ -129,21 +283,8 @@ impl Big {
                     return None;
                 }
                 self.fill_to(rng, x - d);
-                match self.mode {
-                    Mode::Ints => {
-                        let t = digits(rng, d + e);
-                        self.tok(&t, Some(Atom::I64));
-                    }
-                    Mode::Words | Mode::Mixed => {
-                        let w = word(rng, d + e);
-                        self.tok(&w, Some(Atom::Str));
-                    }
-                    Mode::Lines => {
-                        let w = printable(rng, d + e);
-                        self.tok(&w, None);
-                    }
-                }
-                self.sep(rng);
+                self.out.extend(printable(rng, d + e));
+                self.term(rng);
                 Some("big_token_straddles_multiple_of_buf")
             }
             1 => {
@@ -152,33 +293,18 @@ impl Big {
                 }
                 self.fill_to(rng, x - 1);
                 let l = 1 + rng.below(6) as usize;
-                let mut t = vec![b'-'];
-                t.extend(digits(rng, l));
-                let hint = match self.mode {
-                    Mode::Ints => Some(Atom::I64),
-                    Mode::Mixed => Some(Atom::I32),
-                    Mode::Words => Some(Atom::Str),
-                    Mode::Lines => None,
-                };
-                self.tok(&t, hint);
-                self.sep(rng);
+                self.out.push(b'-');
+                self.out.extend(digits(rng, l));
+                self.term(rng);
                 Some("big_minus_digits_straddle_multiple_of_buf")
             }
             _ => {
-                if self.mode == Mode::Lines {
-                    let d = rng.below(6) as usize;
-                    if x < have + 1 + d {
-                        return None;
-                    }
-                    self.fill_to(rng, x - 1 - d);
-                    let w = printable(rng, d);
-                    self.tok(&w, None);
-                } else {
-                    if x < have + 1 {
-                        return None;
-                    }
-                    self.fill_to(rng, x - 1);
+                let d = rng.below(6) as usize;
+                if x < have + 1 + d {
+                    return None;
                 }
+                self.fill_to(rng, x - 1 - d);
+                self.out.extend(printable(rng, d));
                 self.out.extend_from_slice(b"\r\n");
                 Some("big_cr_lf_straddle_multiple_of_buf")
             }
@@ -186,24 +312,9 @@ impl Big {
     }
 }
 
-fn big_input(g: &mut Gen, rng: &mut SplitMix64, mode: Mode, total: usize, long_word: bool) -> Inp {
+fn lines_big_input(g: &mut Gen, rng: &mut SplitMix64, total: usize) -> Vec<u8> {
     let b = g.buf();
-    let mut bg = Big { mode, out: Vec::with_capacity(total + 128), hints: HashMap::new() };
-    if mode != Mode::Lines && rng.chance(1, 4) {
-        rand_sep(rng, &mut bg.out);
-    }
-    if long_word {
-        let at = rng.below(b as u64 / 2 + 1) as usize;
-        bg.fill_to(rng, at);
-        let l = b + 1 + rng.below(b as u64 / 2 + 1) as usize;
-        let mut w = word(rng, l);
-        if mode == Mode::Ints {
-            w = digits(rng, l); // not a valid i64: the script builder falls back to str
-        }
-        bg.tok(&w, Some(Atom::Str));
-        bg.sep(rng);
-        g.emit_count_pair("big_word_longer_than_buf");
-    }
+    let mut bg = BigLines { out: Vec::with_capacity(total + 128) };
     let mut x = b;
     while x < total {
         let kind = rng.below(3);
@@ -217,47 +328,32 @@ fn big_input(g: &mut Gen, rng: &mut SplitMix64, mode: Mode, total: usize, long_w
     let strip = rng.chance(1, 3);
     bg.fill_to(rng, total + strip as usize);
     bg.out.truncate(total);
-    if mode == Mode::Lines && total >= 1 && rng.chance(1, 4) {
+    if total >= 1 && rng.chance(1, 4) {
         bg.out[total - 1] = b'\r';
     }
-    Inp { data: bg.out, hints: bg.hints }
+    bg.out
 }
 
-fn big_script(rng: &mut SplitMix64, mode: Mode, inp: &Inp) -> Vec<Op> {
-    match mode {
-        Mode::Ints | Mode::Words => {
-            let items = build_items(rng, inp, true, false, false);
-            group_big(rng, &items)
-        }
-        Mode::Mixed => {
-            let strict = rng.chance(1, 2);
-            let items = build_items(rng, inp, strict, true, false);
-            group(rng, &items)
-        }
-        Mode::Lines => match rng.below(4) {
-            0 => vec![Op::Lines, Op::Eof],
-            1 => vec![Op::Line, Op::Line, Op::Lines, Op::Line, Op::Eof],
-            2 => {
-                let mut ops = Vec::new();
-                if Oracle::new(&inp.data).peek_token().is_some() {
-                    ops.push(Op::R(Atom::Str));
-                }
-                ops.extend([Op::Line, Op::Eof, Op::Lines, Op::Eof]);
-                ops
+fn lines_big_script(rng: &mut SplitMix64, data: &[u8]) -> Vec<Op> {
+    match rng.below(5) {
+        0 => vec![Op::Lines],
+        1 => vec![Op::Lines, Op::Eof],
+        2 => vec![Op::Line, Op::Lines, Op::Eof],
+        3 => vec![Op::Eof, Op::Lines, Op::Line],
+        _ => {
+            let mut ops = Vec::new();
+            if Oracle::new(data).peek_token().is_some() {
+                ops.push(Op::R(Atom::Str));
             }
-            _ => {
-                let mut o = Oracle::new(&inp.data);
-                let mut k = 0;
-                while o.line().is_some() {
-                    k += 1;
-                }
-                let mut ops = vec![Op::Line; k + 1];
-                ops.push(Op::Eof);
-                ops
-            }
-        },
+            ops.extend([Op::Line, Op::Lines, Op::Eof]);
+            ops
+        }
     }
 }
+
+// ---------------------------------------------------------------------------------------------
+// schedules
+// ---------------------------------------------------------------------------------------------
 
 const BIG_KINDS: [&str; 9] = [
     "sched_all_at_once",
@@ -297,7 +393,7 @@ fn big_sched(rng: &mut SplitMix64, kind: usize, n: usize, b: usize) -> Sched {
                     0 => 1 + rng.below(3 * b as u64) as usize,
                     1 => (b + rng.below(5) as usize).saturating_sub(2).max(1),
                     2 => 1 + rng.below(b as u64) as usize,
-                    _ => 1 + rng.below(16) as usize,
+                    _ => 1 + rng.below(64) as usize,
                 };
                 push_item(&mut s, Item::Chunk(k), 1);
                 pos += k;
@@ -312,17 +408,45 @@ fn big_sched(rng: &mut SplitMix64, kind: usize, n: usize, b: usize) -> Sched {
     s
 }
 
+// ---------------------------------------------------------------------------------------------
+// cases
+// ---------------------------------------------------------------------------------------------
+
 fn big_case(g: &mut Gen, rng: &mut SplitMix64, stream: &'static str, mode: Mode, total: usize, kind: usize, intr: bool, long_word: bool) {
-    let inp = big_input(g, rng, mode, total, long_word);
-    let ops = big_script(rng, mode, &inp);
-    let p = prep(&inp.data, &ops);
+    let (data, ops) = if mode == Mode::Lines {
+        let d = lines_big_input(g, rng, total);
+        let ops = lines_big_script(rng, &d);
+        (d, ops)
+    } else {
+        let mut shape: Vec<Atom> = match mode {
+            Mode::Words => vec![Atom::Str],
+            Mode::Ints => {
+                let a = *rng.pick(&[Atom::I64, Atom::I64, Atom::I32, Atom::U64, Atom::U128, Atom::U128, Atom::I128, Atom::Usize, Atom::I16, Atom::U8]);
+                vec![a; 1 + rng.below(3) as usize]
+            }
+            _ => {
+                let k = 2 + rng.below(7) as usize;
+                (0..k).map(|_| big_atom(rng)).collect()
+            }
+        };
+        if long_word && !shape.contains(&Atom::Str) {
+            let at = rng.below(shape.len() as u64) as usize;
+            shape[at] = Atom::Str;
+        }
+        let first = if rng.chance(1, 2) { Some(big_atom(rng)) } else { None };
+        let inp = rows_input(g, rng, shape, first, total, long_word);
+        let ops = rows_script(rng, &inp);
+        (inp.data, ops)
+    };
+    assert!(ops.len() <= 4);
+    let p = prep(&data, &ops);
     g.emit_count_pair(match mode {
-        Mode::Ints => "big_mode_ints",
+        Mode::Ints => "big_mode_int_rows",
         Mode::Words => "big_mode_words",
         Mode::Lines => "big_mode_lines",
-        Mode::Mixed => "big_mode_mixed",
+        Mode::Mixed => "big_mode_mixed_rows",
     });
-    let mut s = big_sched(rng, kind, inp.data.len(), g.buf());
+    let mut s = big_sched(rng, kind, data.len(), g.buf());
     if intr {
         s = sprinkle(rng, &s, false);
     }
@@ -356,7 +480,7 @@ pub fn stream_long(g: &mut Gen, rng: &mut SplitMix64, thorough: bool) {
         (Mode::Mixed, 6, true, false),
         (Mode::Lines, 6, true, false),
         (Mode::Words, 3, true, true),
-        (Mode::Ints, 2, true, true),
+        (Mode::Mixed, 2, true, true),
     ];
     let n = if thorough { 40 } else { 6 };
     for i in 0..n {
